@@ -80,7 +80,7 @@ EXHAUSTIVE_SCOPE = {
                 "from 5 editor states x 3 documents, and every ordered pair over 116 keys (all named keys + 48 "
                 "printable command keys) from Vi navigation, and named-first pairs from Vi insert and Emacs; the Vi "
                 "grammar [count] operator (12) x motion/text-object (79) x 3 documents and visual mode (3) x object x "
-                "operator (14)",
+                "operator (14); Emacs numeric arguments (-, 0, -3, 12) before every key x 3 documents x 3 clipboards",
 }
 TRUSTED = ["harness/c05.py + c05_editor.py: the tracing Buffer subclass logs every call of a state-writing primitive "
            "(outermost only) and the state after it; key sessions are run once per check, inside the generating "
@@ -871,10 +871,20 @@ def gen_keys_cases(tier, rng):
                         ["A", "z"], ["x"], ["p"]):
                 grammar.append(keys_case(True, True, False, vdocs[0], 5, HISTS[1], CLIPS[2],
                                          ["escape", "<flush>"] + vis + ob + vop + ["escape"]))
+    # Emacs numeric arguments incl. negative and zero (Esc -, Esc 0, Esc - 3, Esc 1 2) before every key
+    negarg = []
+    for pre in (["escape", "-"], ["escape", "0"], ["escape", "-", "3"], ["escape", "1", "2"]):
+        for kk in ALL_KEYS:
+            for doc, cur in (("ab cd\n\n世 x", 1), ("ab cd\n\n世 x", 9), ("", 0)):
+                for clip in (CLIPS[1], CLIPS[4], CLIPS[5]):
+                    for ro in (False, True):
+                        if ro and (clip is not CLIPS[1] or doc == ""):
+                            continue
+                        negarg.append(keys_case(False, True, ro, doc, cur, HISTS[1], clip, pre + [kk, kk]))
     if tier == "thorough":
-        out += grammar
+        out += grammar + negarg
     else:
-        out += rng.sample(grammar, 250)
+        out += rng.sample(grammar, 250) + rng.sample(negarg, 400)
     nrand = 1200 if tier == "quick" else 30000
     for _ in range(nrand):
         vi = rng.random() < 0.65
